@@ -23,7 +23,7 @@ RULE = (
     "frame are 8..12, 126..130 bytes; both must parse (both integrations) to the input. (c) the same statements through the "
     "serializer entry points that let the caller choose the mode (rdflib Graph.serialize with options+stream / with a "
     "stream only / to a destination, stream_frames of both integrations): first bytes classified as the requested mode, the mode get_options_and_frames reports to its caller equals it (streams with identical options rows read back to back in both orders), "
-    "non-delimited output is one bare frame, both modes parse to the same content. "
+    "non-delimited output is one bare frame, both modes parse to the same content; and outputs tuned (literal padding) so that the non-delimited file is exactly 4096, 8192, 8193, 16384, 24576, 32768, 65536, 131072 bytes long parse to the statements written, once. "
     "non-trivial = header with 0x0A in >=2 positions or a multi-byte varint (a), first frame or options row "
     "of length 10 or >=128 (b); distinct by header bytes resp. case hash."
 )
@@ -186,6 +186,22 @@ def _build_rows(case):
 
 
 def check_case(case):
+    if case.get("kind") == "length":
+        from vlib import scen
+
+        pair = tuned_case(case["target"], case["integration"], case["entry"])
+        if pair is None:
+            return None
+        cfg = pair[0] if case["delimited"] else pair[1]
+        try:
+            data, _ = (scen.write_rdflib if case["integration"] == "rdflib" else scen.write_generic)(cfg)
+            got = sorted(repr([list(T.norm(t)) for t in s_]) for s_ in pyj.only_statements(pyj.parse_flat(data, "generic")))
+        except Exception as exc:  # noqa: BLE001
+            return Violation("C08:length-edge-rejected", f"{exc!r}", case)
+        exp = sorted(repr([list(T.norm(t)) for t in s_]) for s_ in cfg["statements"])
+        if got != exp:
+            return Violation("C08:length-edge-content-differs", f"{len(got)} statements parsed, {len(exp)} written", case)
+        return None
     if case.get("kind") == "header":
         h = bytes.fromhex(case["header"])
         want = case["mode"] == "delimited"
@@ -328,7 +344,78 @@ def written_by_pyjelly(case, acc):
     return None
 
 
+LENGTH_TARGETS = [4096, 8192, 8193, 16384, 24576, 32768, 65536, 131072]
+
+
+def tuned_case(target, integ, entry):
+    """One statement whose literal is padded until the NON-delimited output is exactly `target` bytes long (buffer-size
+    multiples, where chunked writers have their edge), or None if the length cannot be hit."""
+    from vlib import scen
+
+    def cfg(n, mode):
+        return {"integration": integ, "entry": entry, "phys": "TRIPLES", "logical": 1, "delimited": mode, "frame_size": 250,
+                "preset": [8, 4, 0], "params": {"generalized": integ == "generic", "rdf_star": integ == "generic", "stream_name": ""},
+                "statements": [[["iri", "http://ex.org/s"], ["iri", "http://ex.org/p"], ["lit", "L" * n, None, None]],
+                               [["iri", "http://ex.org/s2"], ["iri", "http://ex.org/p"], ["lit", "tail", None, None]]]}
+
+    write = scen.write_rdflib if integ == "rdflib" else scen.write_generic
+    n = max(target - 120, 1)
+    # tuned on the DELIMITED output (everything fits one frame: length prefix + frame), so that a writer that goes wrong
+    # at the edge cannot steer the tuning away from it
+    want_len = target + len(wire.enc_varint(target))
+    for _ in range(6):
+        data = write(cfg(n, True))[0]
+        if len(wire.split_delimited(data)) != 1:
+            return None
+        if len(data) == want_len:
+            return cfg(n, True), cfg(n, False)
+        n += want_len - len(data)
+        if n < 1:
+            return None
+    return None
+
+
+def run_lengths(spec) -> Acc:
+    """Serializer output in both modes for total lengths at and around buffer-size multiples: same content, once."""
+    from vlib import scen
+
+    acc = Acc()
+    known = set(spec["known"])
+    for target in LENGTH_TARGETS:
+        for integ, entry in (("generic", "stream_frames_gen"), ("rdflib", "serialize"), ("rdflib", "serialize_dest")):
+            pair = tuned_case(target, integ, entry)
+            if pair is None:
+                acc.counters["length_not_reachable"] += 1
+                continue
+            want = None
+            for cfg in pair:
+                case = {"kind": "length", "target": target, "integration": integ, "entry": entry, "delimited": cfg["delimited"]}
+                acc.evaluations += 1
+                acc.counters["tuned_length_outputs"] += 1
+                acc.nontrivial.add(f"{target}:{integ}:{entry}:{cfg['delimited']}")
+                v = None
+                try:
+                    data, _ = (scen.write_rdflib if integ == "rdflib" else scen.write_generic)(cfg)
+                    ev = pyj.only_statements(pyj.parse_flat(data, "generic"))
+                    # (as multisets: an rdflib container does not keep the order, duplicates must still show)
+                    got = sorted(repr([list(T.norm(t)) for t in s_]) for s_ in ev)
+                    exp = sorted(repr([list(T.norm(t)) for t in s_]) for s_ in cfg["statements"])
+                    if hint(data[:3]) != cfg["delimited"]:
+                        v = Violation("C08:written-mode-misclassified", f"{len(data)}-byte output of {integ}.{entry}", case)
+                    elif got != exp:
+                        v = Violation("C08:length-edge-content-differs", f"{integ}.{entry} delimited={cfg['delimited']}, {len(data)} bytes: "
+                                      f"{len(got)} statements parsed, {len(exp)} written", case)
+                except Exception as exc:  # noqa: BLE001
+                    v = Violation("C08:length-edge-rejected", f"{integ}.{entry} delimited={cfg['delimited']} target {target}: {exc!r}", case)
+                if v is not None and v.signature not in known:
+                    acc.violations.append(v.to_json())
+                    return acc
+    return acc
+
+
 def run_shard(spec) -> Acc:
+    if spec["part"] == "lengths":
+        return run_lengths(spec)
     if spec["part"] == "exhaustive":
         return run_exhaustive(spec)
     acc = Acc()
@@ -347,4 +434,5 @@ def plan(tier, seed):
     edges = [0, 64, 128, 16384] + [16384 + i * ((top - 16384) // 10) for i in range(1, 10)] + [top]
     for i, (lo, hi) in enumerate(zip(edges, edges[1:])):
         specs.append({"part": "exhaustive", "lo": lo, "hi": hi, "nondelimited": i == 0})
+    specs.append({"part": "lengths", "shard": 900})
     return specs
